@@ -145,6 +145,18 @@ def kwarg(call: ast.Call, name: str, pos: Optional[int] = None):
     return None
 
 
+def inert(s) -> bool:
+    """statement without effect on the analysed behaviour: pass, docstring/constant expression, logging call."""
+    if isinstance(s, ast.Pass):
+        return True
+    if isinstance(s, ast.Expr):
+        if isinstance(s.value, ast.Constant):
+            return True
+        if isinstance(s.value, ast.Call) and (dotted(s.value.func) or '').split('.')[0] in ('logger', 'logging'):
+            return True
+    return False
+
+
 def stmts_of(fn) -> list:
     return list(fn.body)
 
